@@ -83,7 +83,7 @@ def corpus(tier):
             out.append(cell_plan('race', 'fast', 'pierce_fast', 'both', 'clear', typ=typ, direct_delay=0.02,
                                  indirect_delay=0.02 - 0.010, hops=hops))
     # connect-back cells
-    for accept, ports, prefer, typ in itertools.product(('fast', 'slow', 'refused', 'blackhole'), ('clear', 'obf', 'both'),
+    for accept, ports, prefer, typ in itertools.product(('fast', 'slow', 'refused', 'blackhole'), ('clear', 'obf', 'both', 'none'),
                                                         PREFER, ('P', 'F')):
         out.append({'seed': 1, 'shape': 'connect_back',
                     'net': {'base_ms': 5, 'jitter_ms': 0, 'segmentation': 'whole', 'coalesce': True},
@@ -97,7 +97,7 @@ def enumerated_axes(tier):
         'outcome_matrix': {'size': len(MODES) * len(DIRECT) * len(INDIRECT) * len(PORTS) * len(PREFER),
                            'exhaustive': True,
                            'axes': 'mode x direct x indirect x ports offered x port preference'},
-        'connect_back': {'size': 4 * 3 * 2 * 2, 'exhaustive': True,
+        'connect_back': {'size': 4 * 4 * 2 * 2, 'exhaustive': True,
                          'axes': 'peer listener behaviour x ports offered x preference x type'},
     }
 
@@ -106,7 +106,7 @@ def generate(rng, index, tier):
     if rng.random() < 0.15:
         accept = rng.choice(('fast', 'slow', 'refused', 'blackhole'))
         return {'seed': rng.getrandbits(32), 'shape': 'connect_back', 'net': common.draw_net(rng),
-                'mode': rng.choice(MODES), 'accept': accept, 'ports': rng.choice(('clear', 'obf', 'both')),
+                'mode': rng.choice(MODES), 'accept': accept, 'ports': rng.choice(('clear', 'obf', 'both', 'both', 'none')),
                 'prefer': rng.choice(PREFER), 'typ': rng.choice(('P', 'D', 'F')),
                 'accept_delay': {'fast': rng.uniform(0.001, 0.3), 'slow': rng.uniform(1.0, 9.5),
                                  'refused': rng.uniform(0.001, 0.3), 'blackhole': None}[accept]}
@@ -627,7 +627,7 @@ def _run_connect_back(world: World, plan):
             world.violate('C11.connect_back', **facts, why='first frame is not a pierce (or undecodable on that port)')
     want_port, want_obf = expected_port(plan['ports'], plan['prefer'], bob)
     for att in world.net.connect_attempts:
-        if att['src'] == 'alice' and att['dst'] == 'bob' and att['port'] != want_port:
+        if att['src'] == 'alice' and att['dst'] == 'bob' and att['port'] != want_port and want_port is not None:
             world.violate('C11.port_choice', ports=plan['ports'], prefer=plan['prefer'], got_port=att['port'] - bob.port,
                           shape='connect_back')
     # nothing left behind when it failed
